@@ -1,5 +1,6 @@
 (* Props/C18.v — pinned statements for property C18 (the serde bridge and the native traits interoperate on the
    shared data model). *)
+From MC Require SerdeC01.
 From MC Require Import Bytes Monad Cbor Encoder Decoder Types Serde SerdeDoc SerdeSharedFacts SerdeCrossFacts SerdeAgreeFacts.
 Local Open Scope N_scope.
 
@@ -40,6 +41,14 @@ Theorem C18_cross_native_reads_bridge :
   decode_ty c t fuel (mkdst p (flat cs' ++ rest) L) = (Ok v, mkdst (p + len (flat cs')) rest L).
 Proof. exact native_reads_bridge. Qed.
 
+(* … and unconditionally, the premise being C01_roundtrip (Proofs/TypesFacts.roundtrip) on the shared types. *)
+Theorem C18_cross_native_reads_bridge_c01 : forall c t v cs cs' fuel rest p L,
+  shared t = true -> ty_opt_opt t = false -> encode_ty t v = Some cs ->
+  ser_s c (embed t v) = Some cs' ->
+  p + len (flat cs') <= L -> len (flat cs') < two64 -> (length (flat cs' ++ rest) < fuel)%nat ->
+  decode_ty c t fuel (mkdst p (flat cs' ++ rest) L) = (Ok v, mkdst (p + len (flat cs')) rest L).
+Proof. exact SerdeC01.native_reads_bridge_c01. Qed.
+
 (* On every input whatsoever (any bytes, any position: well-formed or not, preferred or with wider heads or
    indefinite containers), for every shared type and any fuel on either side: if the native decoder and the
    bridge both succeed, they return the same value and stop at the same position.  They never disagree; at
@@ -76,4 +85,5 @@ Print Assumptions C18_same_chunks.
 Print Assumptions C18_same_bytes.
 Print Assumptions C18_cross_bridge_reads_native.
 Print Assumptions C18_cross_native_reads_bridge.
+Print Assumptions C18_cross_native_reads_bridge_c01.
 Print Assumptions C18_agree.
